@@ -44,7 +44,9 @@ var f64Domain = []float64{0, 1.5, math.Copysign(0, -1), 1e21, 1e-7, 5e-324, math
 var f32Domain = []float64{0, 1.5, math.Copysign(0, -1), float64(float32(1e21)), float64(float32(1e-7)), float64(math.SmallestNonzeroFloat32), float64(math.MaxFloat32), float64(float32(0.1)), 16777216}
 var nonFinite = []float64{math.NaN(), math.Inf(1), math.Inf(-1)}
 
-var strDomain = []string{"", "a", "<&>\"\\", "  ", "\xff\xc3", "abcdefgh\n\x01", "é😀", "01234567<"}
+var strDomain = []string{"", "a", "<&>\"\\", "  ", "\xff\xc3", "abcdefgh\n\x01", "é😀", "01234567<",
+	// specials only in the last len%8 bytes of a string longer than one 8-byte word
+	"abcdefgh" + string(rune(0x2028)), "abcdefghi\xff", "abcdefghijklmnop" + string(rune(0x2029)) + ">"}
 var strDomainRT = []string{"", "a", "<&>\"\\", "  ", "abcdefgh\n\x01\x7f", "é😀", "\b\f\r\t/"}
 
 var numDomain = []string{"1", "", "-1.5e3", "0"}
@@ -57,10 +59,10 @@ var fixedTime = time.Unix(1, 5).UTC()
 // IfaceValues is the domain of interface{} positions.
 func IfaceValues(rt bool) []interface{} {
 	if rt {
-		return []interface{}{nil, float64(1), "s", 1.5, true, []interface{}{float64(1), "a"}, map[string]interface{}{"k": float64(1), "j": nil}, []interface{}{}, map[string]interface{}{}}
+		return []interface{}{nil, float64(1), "s", 1.5, true, []interface{}{float64(1), "a"}, map[string]interface{}{"k": float64(1), "j": nil}, []interface{}{}, map[string]interface{}{}, map[string]interface{}{"a": float64(1), "a!": float64(2), "a b": float64(3)}}
 	}
 	one := 1
-	return []interface{}{nil, 1, "s", 1.5, true, []interface{}{1, "a"}, map[string]interface{}{"k": 1, "j": nil}, MV{1}, &MP{2}, Plain{A: 1}, &RecP{V: 1}, &one, TV{3}, []int(nil), (*int)(nil), uint8(7), []byte("ab")}
+	return []interface{}{nil, 1, "s", 1.5, true, []interface{}{1, "a"}, map[string]interface{}{"k": 1, "j": nil}, MV{1}, &MP{2}, Plain{A: 1}, &RecP{V: 1}, &one, TV{3}, []int(nil), (*int)(nil), uint8(7), []byte("ab"), map[string]interface{}{"a": 1, "a!": 2, "a b": 3}}
 }
 
 // Build produces a value of type t; every position is a Deviate choice whose
@@ -192,7 +194,21 @@ func fill(v reflect.Value, c Ch, o *ValOpts, depth int) {
 			}
 			return k
 		}
-		switch c.Deviate(4) {
+		nm := 4
+		if t.Key().Kind() == reflect.String {
+			nm = 5
+		}
+		switch c.Deviate(nm) {
+		case 4:
+			// keys one of which is a proper prefix of the others, continued by bytes below and above '"':
+			// the order of the members depends on what exactly the encoder compares
+			m := reflect.MakeMap(t)
+			for _, ks := range []string{"a", "a!", "a b", "ab"} {
+				k := reflect.New(t.Key()).Elem()
+				k.SetString(ks)
+				m.SetMapIndex(k, reflect.New(t.Elem()).Elem())
+			}
+			v.Set(m)
 		case 0:
 			m := reflect.MakeMap(t)
 			e := reflect.New(t.Elem()).Elem()
